@@ -420,6 +420,140 @@ class Flow:
         return self._cap(T), self._cap(F)
 
 
+class Tracked(Flow):
+    """Flow with path-sensitive tracking of simple local flags.
+
+    States are pairs (inner, env).  env records, for plain local names, whether the name holds None ('none'), a value that
+    is not None and truthy ('T') or not None and falsy ('F'); tests of such a name (`x`, `x is None`, `x is not None`,
+    `x == None`) then follow only the feasible branch.  This makes single-exit code such as
+
+        refusal = None
+        if not active(): refusal = 'not active'
+        elif seen():     refusal = 'seen'
+        if refusal is not None: return fail(refusal)
+        fire()
+
+    equivalent, for every rule, to the early-return form.  A subclass implements the t_* hooks on the *inner* state
+    (same contracts as the on_* hooks of Flow); run()/exits() wrap and unwrap, so callers keep passing inner states.
+    """
+
+    EMPTY = frozenset()
+
+    # ---- hooks for subclasses (inner states)
+    def t_call(self, call, st):
+        return (st,)
+
+    def t_stmt(self, stmt, st):
+        return (st,)
+
+    def t_test(self, expr, st):
+        return (st,), (st,)
+
+    def t_for(self, node, st):
+        return (st,)
+
+    def t_for_done(self, node, st):
+        return (st,)
+
+    def t_handler(self, handler, st):
+        return (st,)
+
+    def t_return(self, node, st):
+        return (st,)
+
+    def t_raise(self, node, st):
+        return (st,)
+
+    def t_may_raise(self, call, st):
+        return True
+
+    # ---- env helpers
+    @staticmethod
+    def _val(e):
+        if isinstance(e, ast.Constant):
+            if e.value is None:
+                return 'none'
+            return 'T' if e.value else 'F'
+        if isinstance(e, ast.JoinedStr):
+            return 'T' if e.values else 'F'
+        return None
+
+    @staticmethod
+    def _set(env, name, val):
+        env = frozenset(x for x in env if x[0] != name)
+        return env | {(name, val)} if val is not None else env
+
+    def _wrap(self, outs, env):
+        return tuple((o, env) for o in outs)
+
+    # ---- Flow hooks (wrapped states)
+    def on_stmt(self, s, st):
+        inner, env = st
+        env2 = env
+        tg = s.targets if isinstance(s, ast.Assign) else ([s.target] if isinstance(s, (ast.AugAssign, ast.AnnAssign)) else [])
+        for t in tg:
+            for n in ast.walk(t):
+                if isinstance(n, ast.Name):
+                    v = self._val(s.value) if isinstance(s, ast.Assign) and len(s.targets) == 1 and n is t else None
+                    if v is None and isinstance(s, ast.Assign) and isinstance(s.value, ast.Name) and n is t:
+                        v = dict(env).get(s.value.id)
+                    env2 = self._set(env2, n.id, v)
+        return self._wrap(self.t_stmt(s, inner), env2)
+
+    def on_test(self, e, st):
+        inner, env = st
+        d = dict(env)
+        name, kind = None, None
+        if isinstance(e, ast.Name) and e.id in d:
+            name, kind = e.id, 'truth'
+        elif isinstance(e, ast.Compare) and len(e.ops) == 1 and isinstance(e.left, ast.Name) and e.left.id in d and isinstance(e.comparators[0], ast.Constant) and e.comparators[0].value is None:
+            if isinstance(e.ops[0], (ast.Is, ast.Eq)):
+                name, kind = e.left.id, 'isnone'
+            elif isinstance(e.ops[0], (ast.IsNot, ast.NotEq)):
+                name, kind = e.left.id, 'notnone'
+        if name is not None:
+            v = d[name]
+            truth = {'truth': v == 'T', 'isnone': v == 'none', 'notnone': v != 'none'}[kind]
+            return ((st,), ()) if truth else ((), (st,))
+        t, f = self.t_test(e, inner)
+        return self._wrap(t, env), self._wrap(f, env)
+
+    def on_call(self, call, st):
+        return self._wrap(self.t_call(call, st[0]), st[1])
+
+    def on_for(self, node, st):
+        env = st[1]
+        for n in ast.walk(node.target):
+            if isinstance(n, ast.Name):
+                env = self._set(env, n.id, None)
+        return self._wrap(self.t_for(node, st[0]), env)
+
+    def on_for_done(self, node, st):
+        return self._wrap(self.t_for_done(node, st[0]), st[1])
+
+    def on_handler(self, h, st):
+        # whatever was assigned inside the try body may or may not have happened: forget the flags
+        return self._wrap(self.t_handler(h, st[0]), self.EMPTY)
+
+    def on_return(self, node, st):
+        return self._wrap(self.t_return(node, st[0]), st[1])
+
+    def on_raise(self, node, st):
+        return self._wrap(self.t_raise(node, st[0]), st[1])
+
+    def may_raise(self, call, st):
+        return self.t_may_raise(call, st[0])
+
+    # ---- entry points: callers pass and receive inner states
+    def run(self, fnode, init):
+        inits = init if isinstance(init, set) else {init}
+        o = self.block(fnode.body, {(i, self.EMPTY) for i in inits})
+        out = Out()
+        for k in ('normal', 'ret', 'brk', 'cont', 'exc'):
+            setattr(out, k, {x[0] for x in getattr(o, k)})
+        return out
+
+
 def literal_bool_list(e):
     """all([a, b]) / any((a, b)) with a literal sequence -> ('all'|'any', [items])"""
     if (
